@@ -26,11 +26,18 @@ var registry = map[string]*propDef{}
 
 func register(d *propDef) { registry[d.ID] = d }
 
+type mutantEdit struct {
+	File string `json:"file"`
+	Old  string `json:"old"`
+	New  string `json:"new"`
+}
+
 type mutant struct {
-	Name   string   `json:"name"`
-	File   string   `json:"file"`
-	Old    string   `json:"old"`
-	New    string   `json:"new"`
+	Name   string       `json:"name"`
+	File   string       `json:"file"`
+	Old    string       `json:"old"`
+	New    string       `json:"new"`
+	Edits  []mutantEdit `json:"edits,omitempty"` // multi-hunk / multi-file mutants (seeded changes)
 	Expect []string `json:"expect"` // rule ids (prefix match) one of which must report a violation
 	Note   string   `json:"note,omitempty"`
 }
@@ -415,15 +422,26 @@ func runMutantChild(def *propDef, mf, repo, goarch string) int {
 	if err := json.Unmarshal(b, &m); err != nil {
 		return emit("error", err.Error(), nil)
 	}
-	abs := filepath.Join(repo, m.File)
-	src, err := os.ReadFile(abs)
-	if err != nil {
-		return emit("skipped", "file missing: "+m.File, nil)
+	edits := m.Edits
+	if m.File != "" {
+		edits = append([]mutantEdit{{m.File, m.Old, m.New}}, edits...)
 	}
-	if strings.Count(string(src), m.Old) != 1 {
-		return emit("skipped", fmt.Sprintf("hunk does not apply (%d occurrences of the old text)", strings.Count(string(src), m.Old)), nil)
+	overlay := map[string][]byte{}
+	for _, e := range edits {
+		abs := filepath.Join(repo, e.File)
+		cur, ok := overlay[abs]
+		if !ok {
+			b, err := os.ReadFile(abs)
+			if err != nil {
+				return emit("skipped", "file missing: "+e.File, nil)
+			}
+			cur = b
+		}
+		if strings.Count(string(cur), e.Old) != 1 {
+			return emit("skipped", fmt.Sprintf("hunk does not apply to %s (%d occurrences of the old text)", e.File, strings.Count(string(cur), e.Old)), nil)
+		}
+		overlay[abs] = []byte(strings.Replace(string(cur), e.Old, e.New, 1))
 	}
-	mutated := strings.Replace(string(src), m.Old, m.New, 1)
 	// baseline verdicts on the unmutated tree, to report only what the mutant adds
 	base, err := Load(repo, goarch, nil)
 	if err != nil {
@@ -437,7 +455,7 @@ func runMutantChild(def *propDef, mf, repo, goarch string) int {
 		}
 	}
 	resetCaches()
-	p, err := Load(repo, goarch, map[string][]byte{abs: []byte(mutated)})
+	p, err := Load(repo, goarch, overlay)
 	if err != nil {
 		return emit("error", "mutant does not type-check: "+err.Error(), nil)
 	}
